@@ -20,14 +20,235 @@ from facts import strip_generics, VERIF
 MAX_INLINE_NODES = 400
 MAX_DEPTH = 3
 _BASE = None
+_BASE_PARAMS = None
+_BASE_LOCALS = None
 
 
 def baseline():
-    global _BASE
+    global _BASE, _BASE_PARAMS, _BASE_LOCALS
     if _BASE is None:
         with open(os.path.join(VERIF, "tables", "baseline_fns.json")) as fh:
-            _BASE = set(json.load(fh)["fns"])
+            t = json.load(fh)
+        _BASE = set(t["fns"])
+        _BASE_PARAMS = t.get("params", {})
+        _BASE_LOCALS = t.get("locals", {})
     return _BASE
+
+
+_PURE_METHODS = {"len", "as_bytes", "as_str", "as_ref"}
+
+
+def _pure_place(e):
+    """A side-effect free expression over places: paths, fields, indexing / slicing, references, arithmetic, literals."""
+    if not isinstance(e, dict):
+        return False
+    k = e.get("k")
+    if k in ("Path", "Lit"):
+        return True
+    if k in ("Field", "AddrOf", "DropTemps", "Paren", "Cast"):
+        return _pure_place(e.get("e"))
+    if k == "Unary":
+        return _pure_place(e.get("e"))
+    if k == "Index":
+        return _pure_place(e.get("e")) and _pure_place(e.get("i"))
+    if k == "Binary":
+        return e.get("op") not in ("And", "Or") and _pure_place(e.get("l")) and _pure_place(e.get("r"))
+    if k == "Struct" and str(e.get("adt", "")).startswith("std::ops::Range") or k == "Struct" and str(e.get("adt", "")).startswith("core::ops::Range"):
+        return all(_pure_place(f.get("e")) for f in e.get("fields", []))
+    if k == "MethodCall" and e.get("name") in _PURE_METHODS and not e.get("args"):
+        return _pure_place(e.get("recv"))
+    return False
+
+
+def inline_new_locals(facts):
+    """A named temporary that the baseline function did not have (`let rest = &self.re[ix..];`) is read through: its
+    uses are replaced by the initialiser, provided nothing the initialiser mentions is assigned in the function."""
+    baseline()
+    done = []
+    for path, fn in facts.hir.items():
+        sp = strip_generics(path)
+        known = _BASE_LOCALS.get(sp)
+        if known is None:
+            continue
+        known = set(known)
+        body = fn["body"]
+        # everything assigned or mutably borrowed anywhere in the function (by root name / self field)
+        written = set()
+        for n in _walk(body):
+            if n.get("k") in ("Assign", "AssignOp"):
+                l = n.get("l")
+                while isinstance(l, dict) and l.get("k") in ("Field", "Index", "Unary", "DropTemps", "Paren", "AddrOf"):
+                    if l.get("k") == "Field" and isinstance(l.get("e"), dict) and l["e"].get("k") == "Path" and l["e"].get("name") == "self":
+                        written.add("self." + str(l.get("name")))
+                    l = l.get("e")
+                if isinstance(l, dict) and l.get("k") == "Path":
+                    written.add(l.get("name"))
+        for blk in [n for n in _walk(body) if n.get("k") == "Block" and n.get("stmts")]:
+            i = 0
+            while i < len(blk["stmts"]):
+                st = blk["stmts"][i]
+                pat = st.get("pat") or {}
+                if (st.get("k") == "Let" and pat.get("k") == "Binding" and not pat.get("mut") and not pat.get("byref")
+                        and pat.get("name") not in known and st.get("init") is not None and st.get("else") is None and _pure_place(st["init"])):
+                    free = set()
+                    for n in _walk(st["init"]):
+                        if n.get("k") == "Path" and n.get("res") == "Local":
+                            free.add(n.get("name"))
+                        if n.get("k") == "Field" and isinstance(n.get("e"), dict) and n["e"].get("k") == "Path" and n["e"].get("name") == "self":
+                            free.add("self." + str(n.get("name")))
+                    if not (free & written):
+                        bid = pat.get("id")
+                        init = st["init"]
+
+                        def sub(n):
+                            if isinstance(n, list):
+                                return [sub(x) for x in n]
+                            if not isinstance(n, dict):
+                                return n
+                            if n.get("k") == "Path" and n.get("res") == "Local" and n.get("id") == bid:
+                                return copy.deepcopy(init)
+                            return {k_: (sub(v) if isinstance(v, (dict, list)) else v) for k_, v in n.items()}
+                        rest = blk["stmts"][i + 1:]
+                        blk["stmts"][i:] = sub(rest)
+                        if blk.get("expr") is not None:
+                            blk["expr"] = sub(blk["expr"])
+                        done.append((sp, pat.get("name")))
+                        continue
+                i += 1
+    return done
+
+
+def rename_fns(raw):
+    """A private function that was merely renamed (same impl / module, same parameter names, old name gone, exactly
+    one candidate) is presented under its baseline name everywhere in the fact file."""
+    baseline()
+    cur = {}
+    for fn in raw.get("hir", []):
+        sp = strip_generics(fn["path"])
+        if "{closure" in sp or "tests::" in sp:
+            continue
+        cur[sp] = [p.get("name") for p in fn.get("params", [])]
+    exported = {strip_generics(f["path"]) for f in raw["items"]["fns"] if f.get("exported") or f.get("trait_item")}
+    missing = [b for b in _BASE if b not in cur and "tests::" not in b and "<" not in b]
+    new = [c for c in cur if c not in _BASE and c not in exported and "<" not in c]
+    ren = {}
+    for b in missing:
+        parent = b.rsplit("::", 1)[0] if "::" in b else ""
+        want = _BASE_PARAMS.get(b)
+        if want is None:
+            continue
+        cands = [c for c in new if (c.rsplit("::", 1)[0] if "::" in c else "") == parent and cur[c] == want]
+        if len(cands) == 1 and sum(1 for b2 in missing if _BASE_PARAMS.get(b2) == want and (b2.rsplit("::", 1)[0] if "::" in b2 else "") == parent) == 1:
+            ren[cands[0].rsplit("::", 1)[-1]] = b.rsplit("::", 1)[-1]
+    if not ren:
+        return {}
+    import re as _re
+    rx = _re.compile(r"(?<![A-Za-z0-9_])(%s)(?![A-Za-z0-9_])" % "|".join(_re.escape(k) for k in ren))
+
+    def fix(n):
+        if isinstance(n, dict):
+            for k, v in list(n.items()):
+                if isinstance(v, str):
+                    if k not in ("file",) and rx.search(v):
+                        n[k] = rx.sub(lambda m: ren[m.group(1)], v)
+                else:
+                    fix(v)
+        elif isinstance(n, list):
+            for i, v in enumerate(n):
+                if isinstance(v, str):
+                    if rx.search(v):
+                        n[i] = rx.sub(lambda m: ren[m.group(1)], v)
+                else:
+                    fix(v)
+    fix(raw)
+    return ren
+
+
+def rename_variants(raw):
+    """A variant of a private enum that was merely renamed (same position, same number of variants, all other names
+    unchanged) is presented under its baseline name."""
+    baseline()
+    with open(os.path.join(VERIF, "tables", "baseline_fns.json")) as fh:
+        base = json.load(fh).get("private_enum_variants", {})
+    ren = {}
+    for a in raw["items"]["adts"]:
+        sp = strip_generics(a["path"])
+        if sp not in base or a.get("kind") != "Enum":
+            continue
+        cur = [v["name"] for v in a["variants"]]
+        old = base[sp]
+        if len(cur) != len(old) or cur == old:
+            continue
+        diff = [(c, o) for c, o in zip(cur, old) if c != o]
+        if any(c in old or o in cur for c, o in diff):
+            continue        # reordered, not renamed
+        last = sp.rsplit("::", 1)[-1]
+        for c, o in diff:
+            ren[(a["path"], last, c)] = o
+    if not ren:
+        return {}
+
+    def fix(n):
+        if isinstance(n, dict):
+            for (apath, last, c), o in ren.items():
+                if n.get("variant") == c and str(n.get("adt", "")).endswith(last):
+                    n["variant"] = o
+                if n.get("name") == c and n.get("k") is None and "fields" in n:
+                    n["name"] = o
+            for k, v in list(n.items()):
+                if isinstance(v, str):
+                    for (apath, last, c), o in ren.items():
+                        if "%s::%s" % (last, c) in v:
+                            n[k] = v.replace("%s::%s" % (last, c), "%s::%s" % (last, o))
+                else:
+                    fix(v)
+        elif isinstance(n, list):
+            for v in n:
+                fix(v)
+    fix(raw)
+    return {"%s::%s" % (l, c): o for (_, l, c), o in ren.items()}
+
+
+def reorder_params(facts):
+    """A function whose parameters were merely reordered (same names) is presented in the baseline order, at its
+    definition and at every call: rules then do not depend on the parameter order."""
+    baseline()
+    perm = {}
+    for path, fn in facts.hir.items():
+        sp = strip_generics(path)
+        want = _BASE_PARAMS.get(sp)
+        have = [p.get("name") for p in fn.get("params", [])]
+        if want and have != want and sorted(have) == sorted(want) and len(set(have)) == len(have):
+            perm[path] = [have.index(n) for n in want]
+    if not perm:
+        return {}
+
+    def fix(n):
+        if isinstance(n, list):
+            for x in n:
+                fix(x)
+            return
+        if not isinstance(n, dict):
+            return
+        for v in n.values():
+            if isinstance(v, (dict, list)):
+                fix(v)
+        callee = _callee_of(n) if n.get("k") in ("Call", "MethodCall") else None
+        if callee in perm:
+            pm = perm[callee]
+            if n["k"] == "MethodCall":
+                allargs = [n["recv"]] + list(n["args"])
+                if len(allargs) == len(pm) and pm[0] == 0:
+                    allargs = [allargs[i] for i in pm]
+                    n["recv"], n["args"] = allargs[0], allargs[1:]
+            elif len(n.get("args") or []) == len(pm):
+                n["args"] = [n["args"][i] for i in pm]
+    for path, fn in facts.hir.items():
+        fix(fn["body"])
+    for path, pm in perm.items():
+        ps = facts.hir[path]["params"]
+        facts.hir[path]["params"] = [ps[i] for i in pm]
+    return {strip_generics(k): v for k, v in perm.items()}
 
 
 def _walk(n):
@@ -164,6 +385,13 @@ class Inliner:
             rep = self.expand_call(out, caller, depth, stack)
             if rep is not None:
                 return rep
+        # statement-level iterator adaptors read as the loops they are
+        lp = self._adaptor_loop(out)
+        if lp is not None:
+            return lp
+        lp = self._while_let_loop(out)
+        if lp is not None:
+            return lp
         if out.get("k") == "Try":
             inner = out.get("e")
             while isinstance(inner, dict) and inner.get("k") in ("DropTemps", "Paren") and isinstance(inner.get("e"), dict):
@@ -173,6 +401,71 @@ class Inliner:
         if out.get("k") == "Path" and out.get("res") == "Def" and out.get("def") in self.unknown:
             out["_maybe_value_use"] = True
         return out
+
+    @staticmethod
+    def _while_let_loop(node):
+        """`loop { let p = match e { Some(x) => x, None => break }; body }`  ->  `while let Some(p) = e { body }`"""
+        if node.get("k") != "Loop" or node.get("label"):
+            return None
+        body = node.get("body") or {}
+        sts = body.get("stmts") or []
+        if body.get("k") != "Block" or not sts or sts[0].get("k") != "Let" or sts[0].get("else") is not None:
+            return None
+        init = sts[0].get("init")
+        while isinstance(init, dict) and init.get("k") in ("DropTemps", "Paren") and isinstance(init.get("e"), dict):
+            init = init["e"]
+        if not isinstance(init, dict) or init.get("k") != "Match" or len(init.get("arms") or []) != 2:
+            return None
+        a_some = a_none = None
+        for a in init["arms"]:
+            if a.get("guard"):
+                return None
+            p = a["pat"]
+            if p.get("k") == "TupleStructPat" and p.get("variant") == "Some" and len(p.get("pats") or []) == 1 and p["pats"][0].get("k") == "Binding":
+                a_some = a
+            elif (p.get("variant") == "None") or p.get("k") == "Wild":
+                a_none = a
+        if a_some is None or a_none is None:
+            return None
+        b_some, b_none = a_some["body"], a_none["body"]
+        while isinstance(b_none, dict) and b_none.get("k") == "Block" and not b_none.get("stmts") and b_none.get("expr") is not None:
+            b_none = b_none["expr"]
+        if not (isinstance(b_none, dict) and b_none.get("k") == "Break" and not b_none.get("label") and b_none.get("e") is None):
+            return None
+        inner = a_some["pat"]["pats"][0]
+        if not (isinstance(b_some, dict) and b_some.get("k") == "Path" and b_some.get("id") == inner.get("id")):
+            return None
+        pat = dict(a_some["pat"])
+        pat["pats"] = [sts[0]["pat"]]
+        cond = {"k": "LetCond", "pat": pat, "init": init["scrut"], "ty": "bool", "span": sts[0].get("span")}
+        nb = dict(body)
+        nb["stmts"] = sts[1:]
+        return {"k": "While", "cond": cond, "body": nb, "span": node.get("span"), "ty": "()"}
+
+    @staticmethod
+    def _adaptor_loop(node):
+        """`it.for_each(|p| body)` -> `for p in it { body; }`;  `it.try_for_each(|p| body)?` -> `for p in it { body?; }`"""
+        def unpeel(e):
+            while isinstance(e, dict) and e.get("k") in ("DropTemps", "Paren") and isinstance(e.get("e"), dict):
+                e = e["e"]
+            return e
+        tried = False
+        call = node
+        if node.get("k") == "Try":
+            call = unpeel(node.get("e"))
+            tried = True
+        if not isinstance(call, dict) or call.get("k") != "MethodCall" or len(call.get("args") or []) != 1:
+            return None
+        if call.get("name") != ("try_for_each" if tried else "for_each"):
+            return None
+        clo = unpeel(call["args"][0])
+        if clo.get("k") != "Closure" or len(clo.get("params") or []) != 1:
+            return None
+        body = clo["body"]
+        if tried:
+            body = {"k": "Try", "e": body, "span": body.get("span")}
+        return {"k": "For", "pat": clo["params"][0], "iter": call["recv"], "span": node.get("span"), "ty": "()",
+                "body": {"k": "Block", "stmts": [{"k": "Semi", "e": body, "span": body.get("span")}], "expr": None, "span": node.get("span")}}
 
     @staticmethod
     def _result_ctor(e):
@@ -305,9 +598,11 @@ def apply(facts):
     """Mutates facts.hir in place; records facts.norm = {unknown, inlined, owner}."""
     if getattr(facts, "norm", None) is not None:
         return
+    reordered = reorder_params(facts)
+    newlocals = inline_new_locals(facts)
     unknown = unknown_helpers(facts)
     inl = Inliner(facts.hir, unknown)
-    if unknown:
+    if True:
         for path in list(facts.hir):
             if "tests::" in path:
                 continue
@@ -322,7 +617,10 @@ def apply(facts):
     gone = [u for u in unknown if u not in inl.kept and any(c == strip_generics(u) for _, c in inl.inlined)]
     for u in gone:
         facts.hir.pop(u, None)
-    facts.norm = {"unknown": sorted(strip_generics(u) for u in unknown),
+    facts.norm = {"reordered_params": reordered,
+                  "read_through_locals": newlocals,
+                  "renamed_fns": getattr(facts, "renamed_fns", {}),
+                  "unknown": sorted(strip_generics(u) for u in unknown),
                   "removed": sorted(strip_generics(u) for u in gone),
                   "inlined": sorted(set(inl.inlined)),
                   "owner": owners(facts, unknown)}
